@@ -18,7 +18,8 @@ ASSUMPTIONS = ["grid model: contiguous steps from ts[0]; every step but the last
                "interpolation compared to an independent float64 interpolant: 1e-13 (float64 state) / 2e-5 (float32)"]
 REQUIRED_COUNTERS = ["steps", "outputs_inside_step", "outputs_on_grid", "variant_shared_outputs", "ts_list", "ts_f32",
                      "y_f32", "several_outputs_one_step", "dt_larger_than_T", "outputs_inside_clipped_last_step",
-                     "first_gap_smaller_than_dt", "default_dtype_float32_cases", "list_ts_f64_state_under_default_f32"]
+                     "first_gap_smaller_than_dt", "default_dtype_float32_cases", "list_ts_f64_state_under_default_f32",
+                     "via_sdeint_adjoint"]
 THRESHOLDS = {"interp_f64": 1e-13, "interp_f32": 2e-5}
 
 
@@ -82,6 +83,9 @@ def run_case(case):
 
     # the process-wide default dtype is not part of the contract: a list of times is taken in y0's dtype whatever
     # torch.get_default_dtype() says (the harness default is float64; a third of the cases run under float32)
+    # the same grid contract holds for the forward pass of sdeint_adjoint (a quarter of the cases)
+    via_adjoint = rng.random() < 0.25
+    cnt["via_sdeint_adjoint"] = int(via_adjoint)
     under_f32 = rng.random() < 0.35
     cnt["default_dtype_float32_cases"] = int(under_f32)
     cnt["list_ts_f64_state_under_default_f32"] = int(under_f32 and tdt in ("list", "tuple") and ydt == torch.float64)
@@ -93,7 +97,11 @@ def run_case(case):
         bm = torchsde.BrownianInterval(t0=float(ts_t[0]), t1=float(ts_t[-1]), size=(B, sde.m), dtype=ydt,
                                        entropy=entropy, levy_area_approximation=zoo.levy_for(cell["method"]))
         with env.default_dtype(torch.float32 if under_f32 else torch.float64), pr.installed():
-            ys = zoo.solve(cell, sde, y0, ts, dt, bm=bm)
+            ys = zoo.solve(cell, sde, y0, ts, dt, bm=bm, adjoint=via_adjoint)
+        if via_adjoint:
+            # the probe sees only the forward solver as long as nothing is back-propagated
+            pr.steps = [s_ for s_ in pr.steps if s_["solver"] == 0]
+            ys = ys.detach()
         return ys, pr, ts_t
 
     ys, pr, ts_t = run(tsl)
